@@ -17,6 +17,7 @@ package goja
 //@   ensures specThrownKind(x) == 2 ==> result == specThrownException(x) [exception-passes-through]
 //@   ensures specThrownKind(x) == 3 ==> result != nil [internal-error-becomes-exception]
 //@   ensures specThrownKind(x) == 0 ==> result == nil [uncatchable-yields-nil]
+//@   assigns script
 
 // ---- operand stack
 
@@ -94,6 +95,7 @@ package goja
 //@   maypanic
 //@   requires vm != nil
 //@   ensures len(vm.iterStack) == int(iterLen) && len(vm.refStack) == int(refLen) [heights]
+//@   assigns script, vm.iterStack, elems(vm.iterStack), vm.refStack, elems(vm.refStack)
 
 // With closeIters == false no script runs: the only call that can reach script (vm.try around the
 // iterator's return()) is not made.
@@ -106,6 +108,7 @@ package goja
 //@   site try#1 vars closeIters bool
 //@   site try#1 requires closeIters [script-only-when-closing]
 //@   ensures len(vm.iterStack) == int(iterLen) && len(vm.refStack) == int(refLen) [heights]
+//@   assigns script, vm.iterStack, elems(vm.iterStack), vm.refStack, elems(vm.refStack)
 
 // handleThrow: only JS-visible errors are ever delivered to a catch or finally; everything else
 // is re-panicked unchanged; a handler is entered at most once (latch) and sees the thrown value
@@ -149,6 +152,15 @@ package goja
 //@   site exec#1 requires lastload(&vm.interrupted) && !interrupted [polled-just-before-every-instruction]
 //@   ensures_panic specIsInterruptedError(panicValue) [interrupt-surfaces-as-InterruptedError]
 //@   ensures_panic same(specInterruptPayload(panicValue), vm.interruptVal) [carries-the-value-and-keeps-it-for-nested-polls]
+// Assumed about the compiled program the loop executes (it is not followed instruction by
+// instruction): no instruction removes, alters or creates a marker frame - try statements push and pop
+// ordinary frames, and every Go function that pushes a marker pops it again (the guarantee side is the
+// set of ensures/ensures_abrupt clauses of try, runTry, __call and the generator entry points).
+//@   ensures_assumed @markersKept [markers-kept]
+//@   ensures_assumed @noNewMarkers [no-new-markers]
+//@   ensures_abrupt_assumed @markersKept [markers-kept]
+//@   ensures_abrupt_assumed @noNewMarkers [no-new-markers]
+//@   ensures_abrupt_assumed forall k int :: 0 <= k && k < len(vm.tryStack) ==> vm.tryStack[k].sp >= 0 [frames-wf]
 
 // Access discipline that makes Interrupt() from another goroutine race-free: the flag is only
 // touched through sync/atomic, the payload only with the lock held (one obligation per access).
